@@ -187,7 +187,7 @@ def closure_inputs(graph, key, input_name):
     return found
 
 
-def check_graph(res, codes, chunks, method, legname, twod=False, closure=True):
+def check_graph(res, codes, chunks, method, legname, twod=False, closure=True, split_every=None):
     """codes: int array (1-D or 2-D) with -1 = missing label (given to flox as float NaN)."""
     import dask
     import dask.array as da
@@ -200,8 +200,8 @@ def check_graph(res, codes, chunks, method, legname, twod=False, closure=True):
     arr = da.from_array(V, chunks=((1, 1),) + tuple(chunks), name="input-" + dask.base.tokenize(V, chunks))
     kw = dict(func="sum", method=method, engine="numpy")
     present = sorted(set(int(c) for c in codes.ravel() if c >= 0))
-    case = dict(codes=codes.tolist(), chunks=[list(c) for c in chunks], method=method)
-    tags = dict(leg2=legname, method=str(method))
+    case = dict(codes=codes.tolist(), chunks=[list(c) for c in chunks], method=method, split_every=split_every)
+    tags = dict(leg2=legname, method=str(method), split_every=split_every)
     size = n * 10 + sum(len(c) for c in chunks)
     ref = blocks_of_labels(codes, chunks)
     if method == "blockwise":
@@ -212,7 +212,8 @@ def check_graph(res, codes, chunks, method, legname, twod=False, closure=True):
     res.evaluations += 1
     res.states += 1
     res.transitions += 1
-    out = e1.call_reduce(arr, labels, compute=False, **kw)
+    with dask.config.set(**({"split_every": split_every} if split_every else {})):
+        out = e1.call_reduce(arr, labels, compute=False, **kw)
     if out.kind == "refused":
         res.outcomes[f"refused:{out.exc}"] += 1
         return
@@ -351,6 +352,8 @@ def run_shard(shard):
                 continue
             for method in shard.get("methods", (None, "map-reduce", "cohorts", "blockwise")):
                 check_graph(res, codes, (ch,), method, leg, closure=(n <= 5))
+            if len(ch) >= 5:  # deeper per-cohort trees (3 levels with 5 blocks)
+                check_graph(res, codes, (ch,), "cohorts", leg, closure=True, split_every=2)
             if len(ch) >= 2 and any(len(b) >= 2 for b in blocks_of_labels(codes, (ch,)).values()):
                 res.nontrivial += 4
         res.sample(dict(leg=leg, codes=list(pairs[len(pairs) // 2][0]), chunks=list(pairs[len(pairs) // 2][1]),
@@ -392,5 +395,5 @@ def replay(payload):
     if payload["leg"].startswith("planner"):
         check_planner(res, codes, chunks, c["merge"], c["expected_size"], "replay")
     else:
-        check_graph(res, codes, chunks, c["method"], "replay", closure=True)
+        check_graph(res, codes, chunks, c["method"], "replay", closure=True, split_every=c.get("split_every"))
     return res
